@@ -10,6 +10,10 @@ CONSTANTS
   NotifyPop = FALSE
   ReleaseOnEnd = TRUE
   Faults = TRUE
+  StopAfterSend = TRUE
+  CleanupOnDisc = TRUE
+  MaxSendFail = 1
+  Family = "none"
   MaxOps = 1
   MaxCancel = 0
   Depth = 0
